@@ -16,7 +16,7 @@ from twisted.internet.testing import StringTransport
 
 from . import env
 from .core import HarnessError
-from .sched import Sched
+from .sched import Sched, install_threading_shim
 
 STRATEGIES = ['sorted', 'timesorted', 'max', 'bucketmax', 'naive', 'random']
 T0 = 1000000.0
@@ -165,6 +165,7 @@ def run_case(case, on_point=None, trace_protocols=True, extra_trace=(), post=Non
   saved = {'time': cachemod.time, 'choice': env.need(cachemod, 'choice')}
   cachemod.time = sched.time
   cachemod.choice = fake_choice
+  unshim = install_threading_shim(sched, [cachemod, b.events, b.protocols])
   run = CacheRun()
   run.sched = sched
   run.history = [[], []]
@@ -174,10 +175,22 @@ def run_case(case, on_point=None, trace_protocols=True, extra_trace=(), post=Non
     cache = cachemod.MetricCache()
     if not hasattr(cache, 'lock'):
       raise HarnessError('_MetricCache has no .lock attribute any more')
-    cache.lock = sched.make_lock()
+    cache.lock = sched.make_lock(like=cache.lock)
     run.cache = cache
     if setup is not None:
       setup(run, sched)
+    # sequential history before the two threads start (so that a single preemption of the writer's first drain
+    # already meets a non-empty cache): completed stores of the receiving thread
+    for spec in case.get('prefill_stores', ()):
+      op = Op(0, 'store', list(spec))
+      op.time = sched.now
+      op.inv = sched.tick()
+      try:
+        cache.store(spec[0], (spec[1], spec[2]))
+      except Exception as e:  # noqa: judged by the property's oracle
+        op.exc = e
+      op.resp = sched.tick()
+      run.history[0].append(op)
     current_op = [None, None]
 
     def overflow_handler():
@@ -269,6 +282,7 @@ def run_case(case, on_point=None, trace_protocols=True, extra_trace=(), post=Non
     run.end_time = sched.now
     return run
   finally:
+    unshim()
     cachemod.time = saved['time']
     cachemod.choice = saved['choice']
 
